@@ -70,6 +70,10 @@ def cases(tier, seed):
     for c in ds[:8 if tier == 'quick' else 150]:
         for s in SIMS:
             out.append(dict(c, k='default_tracer', sim=s, K=2))
+    for kind_ in ('plain', 'direct'):
+        for s in SIMS:
+            out.append({'fam': 'PROBE', 'kind': kind_, 'k': 'default_tracer', 'sim': s, 'K': 3})
+            out.append({'fam': 'PROBE', 'kind': kind_, 'k': 'inspect', 'sim': s, 'K': 2})
     for kind_ in ('wide_in', 'wide_out', 'reg'):
         out.append({'fam': 'RUNMANY', 'kind': kind_, 'k': 'run_many', 'sim': 'compiled', 'K': 3})
     for c in ds[:4 if tier == 'quick' else 40]:
@@ -159,6 +163,33 @@ def build_vcdn(d):
 
 
 designs.register_family('VCDN', build_vcdn)
+
+
+def build_probe(d):
+    """named registers that reach Outputs through ONE net other than a plain wire (after direct_connect_outputs: an inverter, a
+    bit select, a memory read) and, for one of them, through a real probe (a 'w' net): which internal wires the compiled
+    simulator can report, and with which values"""
+    a = pyrtl.Input(3, 'a')
+    flag = pyrtl.Register(3, 'flag')
+    flag.next <<= a ^ flag
+    ptr = pyrtl.Register(2, 'ptr')
+    ptr.next <<= a[0:2]
+    seen = pyrtl.Register(3, 'seen')
+    seen.next <<= a
+    m = pyrtl.MemBlock(bitwidth=3, addrwidth=2, name='m', asynchronous=True)
+    m[a[0:2]] <<= flag
+    o1, o2, o3, o4 = pyrtl.Output(3, 'o1'), pyrtl.Output(2, 'o2'), pyrtl.Output(3, 'o3'), pyrtl.Output(3, 'o4')
+    o1 <<= ~flag
+    o2 <<= flag[1:3]
+    o3 <<= m[ptr]
+    o4 <<= seen
+    b = pyrtl.working_block()
+    if d.get('kind') == 'direct':
+        pyrtl.direct_connect_outputs(b)
+    return b
+
+
+designs.register_family('PROBE', build_probe)
 
 
 def _decoy_block():
